@@ -271,6 +271,7 @@ static bool in_arena(const std::vector<ArenaArea>& as, uint64_t a, uint64_t len)
 static void do_footprint_mark(const Op& op) {
   if (op.a == 0) collect_all_heaps(true);
   std::vector<ArenaArea> as = all_arena_areas();
+  if (as.size() > 8) probe(PR_arenas_8plus);     // the reserve size doubles from the 9th arena on
   uint64_t mapped = 0, resident = 0;
   // parts of the segment map (8 KiB each, one per ~2 TiB of address space in which a segment was ever placed) are allocated
   // on first use and kept by design; their number is bounded by the address space, not by the history
